@@ -377,6 +377,24 @@ fn block_letters(s: Stream, intra: bool) -> Vec<(&'static str, Vec<bool>)> {
     }
     v.push(("run-63-then-more", with_dc(cat(&[&escf(false, 63, 3), &short_last]))));
     v.push(("run-overflow-chain", with_dc(cat(&[&escf(false, 40, 2), &escf(false, 40, -2), &short_last]))));
+    // accumulations inside one block: the position (and anything summed from runs or counted per
+    // event) passes 255/256, 512 and 65535 before the event flagged LAST
+    for (name, k) in [("run-63-x4", 4usize), ("run-63-x5", 5), ("run-63-x9", 9), ("run-63-x70", 70), ("run-63-x1100", 1100)] {
+        let mut x = vec![];
+        for i in 0..k {
+            x.extend(escf(false, 63, if i % 2 == 0 { 2 } else { -3 }));
+        }
+        x.extend(short_last.iter());
+        v.push((name, with_dc(x)));
+    }
+    for (name, k) in [("events-x70", 70usize), ("events-x300", 300), ("events-x70000", 70000)] {
+        let mut x = vec![];
+        for _ in 0..k {
+            x.extend(short_more.iter());
+        }
+        x.extend(short_last.iter());
+        v.push((name, with_dc(x)));
+    }
     if intra {
         v.push(("intradc-0", cat(&[&b("00000000"), &short_last])));
         v.push(("intradc-128", cat(&[&b("10000000"), &short_last])));
